@@ -19,6 +19,7 @@ import (
 	"strconv"
 	"strings"
 	"sync"
+	"sync/atomic"
 	"time"
 )
 
@@ -48,13 +49,17 @@ var props = map[string]propCfg{
 		Thorough:  tierCfg{Runs: 400000, Workers: 16, Budget: 9 * time.Minute, Seeds: 5},
 		Rule:      "one run = one middleware instance (Validator strict/non-strict with default or custom ErrFunc/LogFunc, or ValidationHandler.ServeHTTP/Middleware) over a seeded document-family member and a history of 1-4 requests (routable or not, valid or invalid by construction, body delivered by a chunk plan with optional mid-body fault) each answered by a scripted handler (call-sequence shape drawn from: silent, status-only, write-only, pieces, multi-status, write-then-status, informational-first, flush variants) observed by a net/http-faithful client writer with optional write fault. A run is non-trivial when it has at least one request; distinct = distinct (mode, ErrFunc, document member, router, history length, handler-shape sequence, auth behaviour, multi-error) tuples.",
 		DesignRef: "§3 SIM-MW"},
+	"C15": {Sim: "conc", Race: true, Quick: tierCfg{Runs: 4800, Workers: 16, Budget: 100 * time.Second, Seeds: 1},
+		Thorough:  tierCfg{Runs: 120000, Workers: 16, Budget: 18 * time.Minute, Seeds: 5},
+		Rule:      "one run = 2-6 caller goroutines with 1-4 library calls each (FindRoute on both routers, ValidateRequest over JSON/form/multipart/text bodies with defaults on/off, multi-error, custom regex compilers, reading auth callbacks; ValidateResponse; Schema.VisitJSON/IsMatching in every mode; strict and non-strict middleware ServeHTTP; openapi3gen.NewSchemaRefForValue on compiled-in and per-run reflect.StructOf types) sharing one loaded+validated document (patterns carry the run marker: cold caches), both routers and two middleware instances, executed in a -race build under the zzsimrt scheduler with a seeded policy (serial, uniform-random switch probability 1/3..1/1000, PCT depth 1-3, round-robin quantum 1..1000) and sorted or seeded-permuted map iteration. Oracles: A no race report with a kin-openapi frame in both stacks / no runtime fatal; B every call's outcome equals the same call alone on a fresh document; C no deadlock on library locks, all calls return within the step cap; D the shared document serialises identically before and after. Non-trivial = at least one context switch happened inside library code; distinct = distinct (caller op-kind multiset, hash of the switch sequence projected to (from-site, to-site)) pairs.",
+		DesignRef: "§3 SIM-CONC"},
 	"C11": {Sim: "loader", Quick: tierCfg{Runs: 40000, Workers: 16, Budget: 60 * time.Second, Seeds: 1},
-		Thorough: tierCfg{Runs: 700000, Workers: 16, Budget: 9 * time.Minute, Seeds: 5},
-		Rule: "one run = one or two loads (fresh or reused Loader) of a generated multi-file layout in the simulated storage: root at one of {in-memory data, io.Reader, data+absolute path, data+http URL, relative file, absolute file, file:// URL, http, https}, 0-5 further documents (whole OpenAPI documents, bare single elements of each of the ten kinds, free-form JSON with fragments) in nested directories and on a second host, references of all ten resolver kinds planted at visited and unvisited positions in whole-file, fragment and missing-fragment form with chains/diamonds/cycles, canary references (parent escapes, absolute paths, http(s) and scheme-relative URLs), both switch settings, custom ReadFromURIFunc or the default reader (simulated os.ReadFile + RoundTripper), read faults. Invariant at every read event: switch off => the root location only (none at all for in-memory roots); switch on => location in the justified set J, and (custom reader) some already-delivered document refers to it. Non-trivial = the layout holds at least one reference; distinct = distinct (root form, reader, switch, reuse, file kinds, number of reads, faults) tuples.",
+		Thorough:  tierCfg{Runs: 700000, Workers: 16, Budget: 9 * time.Minute, Seeds: 5},
+		Rule:      "one run = one or two loads (fresh or reused Loader) of a generated multi-file layout in the simulated storage: root at one of {in-memory data, io.Reader, data+absolute path, data+http URL, relative file, absolute file, file:// URL, http, https}, 0-5 further documents (whole OpenAPI documents, bare single elements of each of the ten kinds, free-form JSON with fragments) in nested directories and on a second host, references of all ten resolver kinds planted at visited and unvisited positions in whole-file, fragment and missing-fragment form with chains/diamonds/cycles, canary references (parent escapes, absolute paths, http(s) and scheme-relative URLs), both switch settings, custom ReadFromURIFunc or the default reader (simulated os.ReadFile + RoundTripper), read faults. Invariant at every read event: switch off => the root location only (none at all for in-memory roots); switch on => location in the justified set J, and (custom reader) some already-delivered document refers to it. Non-trivial = the layout holds at least one reference; distinct = distinct (root form, reader, switch, reuse, file kinds, number of reads, faults) tuples.",
 		DesignRef: "§3 SIM-LOADER"},
 	"C02": {Sim: "loader", Quick: tierCfg{Runs: 40000, Workers: 16, Budget: 60 * time.Second, Seeds: 1},
-		Thorough: tierCfg{Runs: 700000, Workers: 16, Budget: 9 * time.Minute, Seeds: 5},
-		Rule: "same runs as C11. Clause (i): a location whose read failed (missing, enoent, eio, http 5xx, connection reset) and never succeeded in that load => the load returns an error. Clause (ii): every load terminates within a read budget (64+16*(1+references)*(1+files) reads) and an instrumentation-step budget, including on cyclic multi-file layouts and under faults. The main clause (resolved object == designated object) is a pure function of the file tree and is NOT decided.",
+		Thorough:  tierCfg{Runs: 700000, Workers: 16, Budget: 9 * time.Minute, Seeds: 5},
+		Rule:      "same runs as C11. Clause (i): a location whose read failed (missing, enoent, eio, http 5xx, connection reset) and never succeeded in that load => the load returns an error. Clause (ii): every load terminates within a read budget (64+16*(1+references)*(1+files) reads) and an instrumentation-step budget, including on cyclic multi-file layouts and under faults. The main clause (resolved object == designated object) is a pure function of the file tree and is NOT decided.",
 		DesignRef: "§3 SIM-LOADER, §4 C02"},
 	"C13": {Sim: "stream", Quick: tierCfg{Runs: 48000, Workers: 16, Budget: 60 * time.Second, Seeds: 1},
 		Thorough:  tierCfg{Runs: 800000, Workers: 16, Budget: 9 * time.Minute, Seeds: 5},
@@ -232,6 +237,7 @@ type violationRec struct {
 	Spec       json.RawMessage `json:"spec"`
 	Violations []violation     `json:"violations"`
 	BatchSeed  uint64          `json:"batch_seed,omitempty"`
+	Respec     json.RawMessage `json:"respec,omitempty"`
 }
 
 type summaryRec struct {
@@ -327,8 +333,15 @@ func runSpec(bin, sim, prop string, spec []byte, dir string, events bool) (resul
 	return r, stderr.String(), nil
 }
 
+var raceSeq int64
+
+// raceEnv routes race-detector reports of a child process to a file the child
+// itself inspects after every run (the process keeps running: a report becomes
+// an ordinary violation of the run that produced it).
 func raceEnv(dir string) []string {
-	return []string{"GORACE=halt_on_error=1 exitcode=66 history_size=3"}
+	n := atomic.AddInt64(&raceSeq, 1)
+	base := filepath.Join(dir, fmt.Sprintf("race.%d", n))
+	return []string{"GORACE=halt_on_error=0 exitcode=0 history_size=4 log_path=" + base, "ZZSIM_RACE_LOG=" + base}
 }
 
 func lastLine(b []byte) []byte {
@@ -470,6 +483,12 @@ func runCheck(id, tier string, cfg propCfg) int {
 		fmt.Fprintln(os.Stderr, "no runs executed")
 		return 2
 	}
+	for why := range agg.InconclWhy {
+		if strings.HasPrefix(why, "harness") {
+			fmt.Fprintf(os.Stderr, "harness trouble (not a verdict): %s\n", why)
+			return 2
+		}
+	}
 	if agg.Inconcl*20 > agg.Runs {
 		fmt.Fprintf(os.Stderr, "too many inconclusive runs: %d of %d: %v\n", agg.Inconcl, agg.Runs, agg.InconclWhy)
 		return 2
@@ -527,6 +546,11 @@ func runCheck(id, tier string, cfg propCfg) int {
 			confirmed = 0
 		}
 		rec := recs[confirmed]
+		if len(rec.Respec) > 0 {
+			if r, _, err := runSpec(bin, cfg.Sim, id, rec.Respec, scr, false); err == nil && hasSig(r, id, sig) {
+				rec.Spec = rec.Respec // the explicit form reproduces: minimise that
+			}
+		}
 		min, tried := minimise(bin, cfg.Sim, id, sig, rec.Spec, scr)
 		// the replay must reproduce three times
 		stable := true
@@ -743,7 +767,27 @@ func parseOut(path string) (sums []summaryRec, viols []violationRec) {
 // classifyCrash turns the stderr of a process that died into a violation, or
 // reports that it cannot (infrastructure). Filled in by the simulators that
 // can die on a finding (SIM-CONC: race reports, runtime fatals, deadlock).
-var classifyCrash = func(id, stderr string) (violation, bool) { return violation{}, false }
+var classifyCrash = func(id, stderr string) (violation, bool) {
+	if id != "C15" {
+		return violation{}, false
+	}
+	switch {
+	case strings.Contains(stderr, "ZZSIM-DEADLOCK"):
+		line := stderr[strings.Index(stderr, "ZZSIM-DEADLOCK"):]
+		if i := strings.IndexByte(line, '\n'); i >= 0 {
+			line = line[:i]
+		}
+		return violation{Property: id, Oracle: "no-deadlock", Sig: id + "/deadlock", Detail: "every live caller spins on a library lock: " + line}, true
+	case strings.Contains(stderr, "fatal error: concurrent map"):
+		i := strings.Index(stderr, "fatal error: concurrent map")
+		what := stderr[i:]
+		if j := strings.IndexByte(what, '\n'); j >= 0 {
+			what = what[:j]
+		}
+		return violation{Property: id, Oracle: "race", Sig: id + "/fatal:" + strings.TrimPrefix(what, "fatal error: "), Detail: tail(stderr[i:], 3000)}, true
+	}
+	return violation{}, false
+}
 
 func replay(path string) int {
 	b, err := os.ReadFile(path)
